@@ -153,3 +153,15 @@ func MaybeLogger(t *rapid.T, sc *world.Scenario) {
 		sc.Logger = Pick(t, "logger-kind", "debug", "debug", "text", "info", "warn", "error")
 	}
 }
+
+// MaybeOddForm lets a request spell its target URI the way some Go clients do: through
+// URL.Opaque, or (like a reverse proxy) with URL.Host an address and Request.Host the authority.
+// The target URI - and so everything the cache owes the request - is unchanged.
+func MaybeOddForm(t *rapid.T, label string, rq *world.Req, pct int) {
+	switch {
+	case Pct(t, label+"-opaque", pct):
+		rq.OpaqueForm = Pick(t, label+"-opaquef", 1, 2)
+	case Pct(t, label+"-dialvia", pct):
+		rq.DialVia = Pick(t, label+"-dialviav", "10.0.0.7:8080", "127.0.0.1", "gateway.internal:80")
+	}
+}
